@@ -176,11 +176,18 @@ where
                 // We don't have a valid connection - we must reconnect.
                 if src.inner.is_none() {
                     warn!("Reconnecting");
-                    match inner::connect(&src.config).await {
-                        Ok(inner) => src.inner = Some(inner),
-                        Err(err) => {
+                    // The terminal may accept the connection and then stay
+                    // silent - the handshake needs a timeout, too.
+                    match tokio::time::timeout(TIMEOUT, inner::connect(&src.config)).await {
+                        Ok(Ok(inner)) => src.inner = Some(inner),
+                        Ok(Err(err)) => {
                             warn!("Failed to reconnect: {err:?}");
                             yield Err(err);
+                            continue;
+                        }
+                        Err(_) => {
+                            warn!("Timeout while reconnecting");
+                            yield Err(Error::new(ErrorKind::TimedOut, "Timeout while connecting").into());
                             continue;
                         }
                     }
